@@ -28,6 +28,7 @@ def open_findings(prop):
 def attribute(v, findings):
     causes = v.get("cause") or []
     for f in findings:
-        if v.get("prop") == f["property"] and v.get("kind") in f["kinds"] and f["cause"] in causes:
+        if v.get("prop") == f["property"] and (f["kinds"] == "*" or v.get("kind") in f["kinds"]) \
+                and f["cause"] in causes:
             return f
     return None
